@@ -278,6 +278,11 @@ HEADER_NOISE = [b'Server: x', b'X-A: 1', b'X-A: 2', b'Set-Cookie: a=b; c', b'Dat
                 b'X-Colon: a:b:c', b'x1y-2z: q', b"o'neil-x: 1", b'X-Fs: a\x1cb: c']
 
 
+# whitespace-only header lines: not empty, so they do not end the header block (an empty folded
+# continuation, stray blanks); Stream.read_response and the field parser read past them
+WS_LINES = [b' ', b'\t', b'  \t ', b'\x0b', b'\x0c ', b' \r', b' \x0b\t']
+
+
 def gen_message(rng, allow_malformed=True):
     """One response message.  `wf` = within the adjudicated domain where the harness
     knows what the server meant (status code, framing, payload, message length)."""
@@ -310,6 +315,10 @@ def gen_message(rng, allow_malformed=True):
     headers = []
     for _ in range(rng.choice([0, 0, 1, 2, 3])):
         headers.append(rng.choice(HEADER_NOISE))
+    if rng.random() < 0.2:
+        for _ in range(rng.choice([1, 1, 2])):
+            headers.append(rng.choice(WS_LINES))
+        m.tags.append('ws-line')
     nobody = m.method == 'HEAD' or 100 <= m.code < 200 or m.code in (204, 304)
     payload = rand_body(rng)
     m.coding = None
@@ -458,8 +467,8 @@ def ref_decode(data, method, ignore_length=False):
             continue
         n, v = line.split(b':', 1)
         fields.append([n.strip().lower(), v.strip()])
-    te = [v for n, v in fields if n == b'transfer-encoding']
-    cl = [v for n, v in fields if n == b'content-length']
+    te = [v.strip() for n, v in fields if n == b'transfer-encoding']
+    cl = [v.strip() for n, v in fields if n == b'content-length']
     body = data[pos:]
     if method.upper() == 'HEAD' or 100 <= r.code < 200 or r.code in (204, 304):
         r.kind, r.payload, r.length = 'complete', b'', pos
